@@ -13,7 +13,9 @@
    ListWorkloads(app, entry, node) reads the keys under filepath.Join("/deploy", app, entry, node) + "/"
    (etcd: key prefix; redis: SCAN with the glob pattern prefix + "*"), GetDeployStatus(app, entry)
    counts the keys under filepath.Join("/deploy", app, entry) + "/" by their second-to-last element.
-   No proofs in this file. *)
+   The /deploy, /processing and /status key spaces are modelled separately; this is exact as long
+   as no key escapes its root, i.e. no name is ".." (such names are rejected by validation; the
+   harness exercises them in the /deploy space only).  No proofs in this file. *)
 From Coq Require Import List Bool Arith NArith String Ascii.
 From Verif Require Import Base.GoStr.
 Import ListNotations.
